@@ -92,6 +92,16 @@ fn fam_scale(bytes: &[u8], ctx: &Ctx) -> CaseInfo {
     info
 }
 
+/// Wide finite domains (intervals of hundreds of values, long sparse domains, several domains
+/// per variable): the generator of C16's wide-domains family, both builds.
+fn fam_fd_wide(bytes: &[u8], ctx: &Ctx) -> CaseInfo {
+    let mut s = Source::new(bytes);
+    let c = crate::gen::fd::gen_case_wide(&mut s, ctx.tier == Tier::Thorough);
+    let mut info = check_with(&c.program(), &[Mode::Bfs, Mode::Dfs], "fd-wide", ctx, Limits { max_answers: 3000, budget: 1_000_000 });
+    truncate_sample(&mut info, 400);
+    info
+}
+
 macro_rules! reuse {
     ($name:ident, $path:path, $label:expr) => {
         fn $name(bytes: &[u8], ctx: &Ctx) -> CaseInfo {
@@ -145,6 +155,7 @@ pub fn def() -> PropertyDef {
             Family { name: "infinite-prefix", max_len: 160, quick: 4_000, thorough: 60_000, run: fam_infinite },
             Family { name: "prefix-branches", max_len: 120, quick: 30_000, thorough: 500_000, run: fam_branches },
             Family { name: "scale", max_len: 96, quick: 12_000, thorough: 200_000, run: fam_scale },
+            Family { name: "fd-wide", max_len: 96, quick: 80_000, thorough: 1_500_000, run: fam_fd_wide },
         ],
         fixed: vec![],
         witnesses: vec![Witness { finding: FINDING_PROJECT, run: witness_project }],
